@@ -142,7 +142,7 @@ var metas = map[string]propMeta{
 	"C06": {quickRuns: 3000, thoroughSec: 600, batch: 300, level: "fault_enumeration"},
 	"C07": {quickRuns: 4000, thoroughSec: 600, batch: 400, level: "exploration"},
 	"C08": {node: true, quickRuns: 2500, thoroughSec: 900, batch: 250, level: "exploration"},
-	"C09": {node: true, quickRuns: 1500, thoroughSec: 900, batch: 150, level: "exploration"},
+	"C09": {node: true, quickRuns: 1000, thoroughSec: 900, batch: 150, level: "exploration"},
 	"C10": {node: true, quickRuns: 2500, thoroughSec: 1200, batch: 200, level: "exploration"},
 	"C11": {node: true, quickRuns: 2500, thoroughSec: 1200, batch: 200, level: "exploration"},
 	"C12": {node: true, quickRuns: 2500, thoroughSec: 1200, batch: 200, level: "exploration"},
